@@ -658,7 +658,9 @@ def run_lhs(case, res):
     kk = max(k, 1)
     mech = {"fam": "lhs", "dim": node.dim(), "k": "k0" if k == 0 else "k+"}
     names = [nm for nm, _ in node.space()]
-    for rep in range(5 * kk):
+    fracs = []
+    nreps = max(5 * kk, int(math.ceil(4000.0 / (n * node.dim()))) if n <= 64 else 5 * kk)
+    for rep in range(nreps):
         row = rep % kk
         box = node.bbox({pn: v[row:row + 1] for pn, v in env.items()}, 1)[0]
         try:
@@ -683,6 +685,7 @@ def run_lhs(case, res):
             lo, hi = box[2 * a], box[2 * a + 1]
             u = (X[:, a] - lo) / (hi - lo) * n
             # exactly one point per slab <=> the i-th smallest point lies in slab i (float32 rounding at the borders allowed)
+            fracs.append(np.clip(u - np.floor(np.clip(u, 0, n - 1e-9)), 0.0, 1.0))
             us = np.sort(u)
             i = np.arange(n)
             if ((us < i - 1e-3) | (us > i + 1 + 1e-3)).any():
@@ -698,6 +701,21 @@ def run_lhs(case, res):
             if abs(rho) > 6.5 / math.sqrt(n - 1) and abs(rho) > 0.9:
                 res["viol"].append(viol("lhs_axes_dependent", "LHSSampler(n=%d): rank correlation of the two axes is %.3f" % (n, rho), **mech))
                 return
+    _lhs_within_slab(fracs, n, res, mech)
+
+
+def _lhs_within_slab(fracs, n, res, mech):
+    """the position of the points inside their slabs is uniform (the whole box is proposed, not a part of every cell)"""
+    f = np.concatenate(fracs) if fracs else np.zeros(0)
+    if len(f) < 2000:
+        return
+    cnt = np.bincount(np.clip((f * 20).astype(int), 0, 19), minlength=20)
+    stat, dof, p = stats.chi2_gof(cnt, np.full(20, 0.05))
+    res["judged"] += 1
+    res["counters"]["lhs_within_slab_tests"] = res["counters"].get("lhs_within_slab_tests", 0) + 1
+    if p < stats.ALPHA:
+        res["viol"].append(viol("lhs_not_uniform_in_slab", "LHSSampler(n=%d): positions inside the slabs are not uniform (20 bins: %s of %d points, "
+                                "chi2=%.1f p=%.2g)" % (n, cnt.tolist(), len(f), stat, p), **mech))
 
 
 def run_grid(case, res):
